@@ -15,7 +15,8 @@ import (
 
 type histOp struct {
 	OpSpec
-	Fault int `json:"fault"`
+	Fault  int  `json:"fault"`
+	Cancel bool `json:"cancel"`
 }
 
 func TestClusterHistories(t *testing.T) {
@@ -61,8 +62,13 @@ func TestClusterHistories(t *testing.T) {
 				continue
 			}
 			run++
-			g.Reset(op.Fault, 0)
-			hdr := Event{"ev": "Run", "run": run, "mode": "history", "store": StoreName(), "failAt": op.Fault, "crashAt": 0, "scenario": sc, "ids": liveIDs, "history": hno}
+			if op.Cancel {
+				g.Reset(0, 0)
+				g.CancelAt(op.Fault)
+			} else {
+				g.Reset(op.Fault, 0)
+			}
+			hdr := Event{"ev": "Run", "run": run, "mode": "history", "store": StoreName(), "failAt": op.Fault, "cancel": op.Cancel, "crashAt": 0, "scenario": sc, "ids": liveIDs, "history": hno}
 			pre := cloneEvent(prev)
 			pre["when"] = "pre"
 			opEvs := env.Exec(sc, bb, "op", 20*time.Second)
